@@ -95,7 +95,9 @@ NUM_TOKENS = [
 ]
 NEG_NUM_TOKENS = ["-1", "-0.5", "-3", "-2.5e1"]
 STAT_NAMES = ["rmse", "median", "mean", "std", "min", "max"]
-PALETTES = ["deep", "muted", "colorblind", "deep6", "pastel", "Set2"]
+PALETTES = ["deep", "muted", "colorblind", "deep6", "pastel", "Set2",
+            # seaborn palette specifications that contain commas / colons
+            "ch:s=.25,rot=-.25", "blend:#7AB,#EDA", "light:b", "husl"]
 # version strings another evo installation would have left behind (some sort
 # lexicographically above the current one, one is an empty torn write)
 OLD_VERSIONS = ["v1.12.0", "v1.30.2", "v1.31.0", "1.0", "", "v1.9.3",
@@ -127,6 +129,8 @@ def gen_group(rng, key, default, allow_negative=False):
             r = rng.random()
             if r < 0.2:
                 return [key, rng.choice(["none", "[]", "None"])]
+            if r > 0.93:
+                return [key, "rmse,mean"]  # ONE value that contains a comma
             n = rng.randint(1, 4)
             return [key] + rng.sample(STAT_NAMES, n)
         n = rng.randint(1, 3)
